@@ -18,7 +18,7 @@ CHECK = {
     "harness": ["actor/zz_verif_c35.go"],
     "entries": [
         {"fn": P + "vC35_across", "replay": "model-only", "opts": {"unwind_mode": "assume"},
-         "opts_quick": {"loop_bounds": {LOOP: 3}}, "opts_thorough": {"loop_bounds": {LOOP: 8}}, "cover_optional": ("ten-sleeps",)},
+         "opts_quick": {"loop_bounds": {LOOP: 3}}, "opts_thorough": {"loop_bounds": {LOOP: 5}}, "cover_optional": ("ten-sleeps",)},
         {"fn": P + "vC35_across_e2e", "replay": "model-only", "opts": {"unwind_mode": "assume", "loop_bounds": {LOOP: 1}}, "cover_optional": ("ten-sleeps", "delivered-after-masking")},
         {"fn": P + "vC35_bypass", "replay": "model-only"},
     ],
@@ -33,7 +33,7 @@ CHECK = {
                    "With 'a timer of duration d ends d + latency later' these give by induction: return time <= start + maxWait + latency. vC35_across_e2e additionally asserts the end-to-end inequality (requested waiting <= maxWait; <= 3.5 s of masking for maxWait <= 0; <= 500 ms for a never-resolvable name) for runs with at most one loop iteration. "
                    "Functional part: at most one delivery, to the last resolved target, result passed through; giving up yields the stalled (retryable) error resp. ErrRelocationInProgress; a terminal error is surfaced as is; outside a cluster exactly one resolution and no sleep. Bypass variant: exactly one resolution, never a timer/sleep, no waiting before the delivery, pinned target => ErrRelocationInProgress.",
     "bounds": {"maxWait": "[-2^62, 2^61] ns (all signs)", "clock": "first reading < 2^40 ns, readings < 2^61 ns, delivery time <= 2^61 ns",
-               "retry loop": "runs with <= 3 (quick) / <= 8 (thorough) loop iterations are covered (longer runs are cut by an unwinding ASSUMPTION; boundedness follows from the progress obligation on paper: <= 70 full sleeps + 2 cut sleeps, in practice 15); end-to-end entry: <= 1 iteration",
+               "retry loop": "runs with <= 3 (quick) / <= 5 (thorough) loop iterations are covered (longer runs are cut by an unwinding ASSUMPTION; boundedness follows from the progress obligation on paper: <= 70 full sleeps + 2 cut sleeps, in practice 15); end-to-end entry: <= 1 iteration",
                "resolution outcomes": "5 kinds, chosen freshly at each attempt"},
     "assumptions": ["deliver honours the deadline of the context it is given (time beyond it counts as latency)", "errors.Is/As follow the library model (Unwrap chains of fmt.Errorf %w / errors.Join; custom Is/As methods are not consulted)",
                     "time.Time is abstracted to its int64 nanosecond reading"],
